@@ -90,6 +90,8 @@ type Spec struct {
 	// DefaultPlatforms: package -> default_platforms of its BUILD file (applies to the targets
 	// of the package that declare no platforms of their own)
 	DefaultPlatforms map[string][]string `json:"default_platforms,omitempty"`
+	// Platform: the platform the builds are made for (grog --platform); "" = the host's
+	Platform string `json:"platform,omitempty"`
 }
 
 // EffectivePlatforms: the target's own platform selectors, else its package's defaults.
